@@ -5,6 +5,7 @@ renumbering loops of add/delete row/column refine the plain grid), spec/Trace_Wo
 import json
 import os
 import random
+from datetime import timedelta
 
 from .. import wb, wbcheck
 from ..core import Machinery
@@ -106,6 +107,95 @@ def random_history(job):
     return trace
 
 
+def fixture_history(job):
+    """a random edit history on a LOADED document (a shipped fixture): the plain-grid model starts from what the document shows"""
+    (idx, path, seed, scratch, steps) = job
+    import warnings
+    warnings.simplefilter("ignore")
+    from numbers_parser import Document
+    rng = random.Random(seed)
+    profile = wb.Profile(rng, tokens=())
+    env = wb.Env(scratch, profile, 1, tag="fx%d-%d" % (os.getpid(), idx))
+    counter = [0]
+
+    def fresh():
+        counter[0] += 1
+        k = counter[0]
+        v = [k + 0.25, "new %d" % k, k, timedelta(seconds=k)][rng.randrange(4)]
+        tok = wb.canon(v)
+        profile.values[tok] = v
+        profile.rev[tok] = tok
+        return tok
+    try:
+        env.docs[1] = Document(path)
+        d = env.docs[1]
+        ncells = sum(tb.num_rows * tb.num_cols for sh in d.sheets for tb in sh.tables)
+        if ncells > 1500 or len(d.sheets) > 4:
+            return None
+        # only documents the library can write back unchanged are in the domain (C02 decides which those are)
+        first = env.project()
+        with warnings.catch_warnings(record=True) as caught:
+            warnings.simplefilter("always")
+            d.save(env.path("pre"))
+        if any("pivot" in str(w.message).lower() for w in caught):
+            return None          # the library says it does not write pivot tables: edits on such documents are outside the domain
+        warnings.simplefilter("ignore")
+        env.docs[1] = Document(env.path("pre"))
+        if env.project() != first:
+            return None
+        env.docs[1] = Document(path)
+        d = env.docs[1]
+        plain = [(s + 1, t + 1) for s, sh in enumerate(d.sheets) for t, tb in enumerate(sh.tables)
+                 if not tb.merge_ranges and tb.num_rows * tb.num_cols <= 400 and tb.num_rows >= 1 and tb.num_cols >= 1]
+    except Exception:  # noqa: BLE001
+        return None
+    if not plain:
+        return None
+    trace = {"init": env.project(), "ev": [], "profile": profile.describe(), "meta": {"seed": seed, "fixture": os.path.basename(path)}}
+    saved = False
+
+    def do(op):
+        out, res = env.apply(op)
+        e = dict(op)
+        e["out"] = out.split(":")[0] if out.startswith("Other") else out
+        if out.startswith("Other"):
+            e["exc"] = out
+        e["post"] = env.project()
+        trace["ev"].append(e)
+    for _ in range(steps):
+        s, t = rng.choice(plain)
+        tb = env.table(1, s, t)
+        nr, nc = tb.num_rows, tb.num_cols
+        k = rng.random()
+        if k < 0.35:
+            do({"op": "write", "h": 1, "s": s, "t": t, "r": rng.randint(1, nr + (1 if rng.random() < 0.2 else 0)), "c": rng.randint(1, nc + (1 if rng.random() < 0.2 else 0)), "v": fresh()})
+        elif k < 0.47:
+            do({"op": "addrow", "h": 1, "s": s, "t": t, "n": rng.randint(1, 2), "at": rng.choice([0] + list(range(1, nr + 1))), "d": fresh() if rng.random() < 0.4 else "e"})
+        elif k < 0.59:
+            do({"op": "addcol", "h": 1, "s": s, "t": t, "n": rng.randint(1, 2), "at": rng.choice([0] + list(range(1, nc + 1))), "d": fresh() if rng.random() < 0.4 else "e"})
+        elif k < 0.68 and nr > 2:
+            n = rng.randint(1, min(2, nr - 1))
+            do({"op": "delrow", "h": 1, "s": s, "t": t, "n": n, "at": rng.choice([0] + list(range(1, nr - n + 2)))})
+        elif k < 0.77 and nc > 2:
+            n = rng.randint(1, min(2, nc - 1))
+            do({"op": "delcol", "h": 1, "s": s, "t": t, "n": n, "at": rng.choice([0] + list(range(1, nc - n + 2)))})
+        elif k < 0.9:
+            do({"op": "save", "h": 1, "f": "f"})
+            saved = True
+        elif saved:
+            do({"op": "open", "h": 1, "f": "f"})
+        if trace["ev"] and trace["ev"][-1]["out"] not in ("ok", "IndexError"):
+            break
+    import glob
+    for f in glob.glob(env.path("*")):
+        if os.path.isdir(f):
+            import shutil
+            shutil.rmtree(f, ignore_errors=True)
+        else:
+            os.remove(f)
+    return trace
+
+
 def run(ctx):
     ctx.rule = ("histories = sequences of public calls; spec-generated ones are all bounded behaviours of Workbook.tla "
                 "(maximal histories of the -dump, plus -simulate behaviours), recorded ones come from a random driver; "
@@ -190,6 +280,22 @@ def run(ctx):
     ctx.stage("validate-random")
     wbcheck.validate(ctx, rtraces[:n_small], nhandles=2, files=("f", "g"), label="random", batch=100)
     wbcheck.validate(ctx, rtraces[n_small:], nhandles=1, files=("f", "g"), label="random-big", batch=10)
+    # 3b. the same driver on LOADED documents: every shipped fixture the library can write back unchanged
+    ctx.stage("record-fixtures")
+    from .. import fixtures
+    fx = fixtures.readable_fixtures(ctx.workers)
+    if q:
+        fx = fx[::3]
+    fjobs = [(i, p, ctx.seed * 13 + i, ctx.scratch, 8 if q else 14) for i, p in enumerate(fx)]
+    if not q:
+        fjobs += [(1000 + i, p, ctx.seed * 17 + i, ctx.scratch, 14) for i, p in enumerate(fx)]
+    ftraces = [t for t in pmap(fixture_history, fjobs, ctx.workers) if t is not None]
+    ctx.evaluations += len(ftraces)
+    for t in ftraces:
+        ctx.distinct.add(("fx", t["meta"]["fixture"], hash(json.dumps([{k: v for k, v in e.items() if k != "post"} for e in t["ev"]], sort_keys=True))))
+    ctx.extra["fixture_histories"] = {"documents_tried": len(fx), "histories": len(ftraces)}
+    ctx.stage("validate-fixtures")
+    wbcheck.validate(ctx, ftraces, nhandles=1, files=("f", "g"), label="fixtures", batch=5)
     # 4. binding self-test
     ctx.stage("selftest")
     wbcheck.selftest(ctx)
